@@ -195,6 +195,8 @@ func runC01(r *vhlib.Run) {
 	rng := r.Rng
 	// the sliding window against its implementation-level model (Window/Dict.v)
 	wdict(r)
+	// flate.Reader itself against its implementation-level model, per Read call (Flate/Impl.v)
+	wflimpl(r)
 	// every string of <= 2 bytes (quick) / <= 3 bytes (thorough: impl + refs, model on a sample)
 	c01Check(r, gen.Stream{Kind: "tiny"})
 	for a := 0; a < 256; a++ {
